@@ -352,6 +352,16 @@ def check(repo):
     wc = repo.func(F.SRV, "Service.wait_closed")
     ok = any(isinstance(aw, ast.Await) and isinstance(aw.value, ast.Call) and dotted(aw.value.func) == "self.websocket.wait_closed" for aw in ast.walk(wc.node))
     r5.require(ok, wc, "wait_closed awaits the socket", "Service.wait_closed no longer awaits self.websocket.wait_closed()")
+    if ok:
+        # ... on every path that returns normally (handlers included): a later connection is released only when the await of the
+        # socket's closure itself has completed - a bounded wait (wait_for with a timeout, a probe that gives up) is no such await
+        wcfg = cfg_of(wc.node)
+        direct = {n.id for n in wcfg.nodes if n.stmt is not None and any(
+            isinstance(aw, ast.Await) and isinstance(aw.value, ast.Call) and dotted(aw.value.func) == "self.websocket.wait_closed"
+            for aw in ast.walk(n.ast if n.ast is not None else n.stmt))}
+        r5.require(bool(direct) and wcfg.must_pass(wcfg.entry, direct, skip_exc=False), wc, "wait_closed returns only after the socket closed",
+                   "Service.wait_closed can return without the await of self.websocket.wait_closed() having completed (a path gives up "
+                   "waiting): the next connection of the service is then registered and served while this one is still open")
     # _recv_message reachable only through start; start only from create_service
     for rel, m in repo.modules.items():
         if not rel.startswith("frontend/server/"):
